@@ -35,6 +35,28 @@ impl FilesystemStore {
 	}
 }
 
+#[cfg(ldk_verif)]
+impl FilesystemStore {
+	/// Verification hook: the number of entries of the per-path lock map.
+	pub fn verif_state_size(&self) -> usize {
+		self.state.verif_state_size()
+	}
+
+	/// Verification hook: the synchronous half of the asynchronous `write` (takes the version).
+	pub fn verif_prepare_write(
+		&self, primary_namespace: &str, secondary_namespace: &str, key: &str, buf: Vec<u8>,
+	) -> Result<crate::verif::VerifPrepared, lightning::io::Error> {
+		self.state.verif_prepare_write(primary_namespace, secondary_namespace, key, buf, false)
+	}
+
+	/// Verification hook: the synchronous half of the asynchronous `remove` (takes the version).
+	pub fn verif_prepare_remove(
+		&self, primary_namespace: &str, secondary_namespace: &str, key: &str, lazy: bool,
+	) -> Result<crate::verif::VerifPrepared, lightning::io::Error> {
+		self.state.verif_prepare_remove(primary_namespace, secondary_namespace, key, lazy, false)
+	}
+}
+
 impl KVStoreSync for FilesystemStore {
 	fn read(
 		&self, primary_namespace: &str, secondary_namespace: &str, key: &str,
